@@ -52,6 +52,8 @@ def shards(tier, seed):
                     "part": i, "parts": n, "sample": 1 if tier == "quick" else 6})
     for i in range(4 if tier == "quick" else 16):
         out.append({"name": f"rand{i}", "kind": "random", "n": 300 if tier == "quick" else 4000})
+    for i in range(2 if tier == "quick" else 8):
+        out.append({"name": f"freerun{i}", "kind": "freerun", "n": 12 if tier == "quick" else 80})
     return out
 
 
@@ -383,7 +385,152 @@ DIRECTED = [
 ]
 
 
+def run_freerun(spec):
+    """Real thread scheduling: bursts of mixed requests arrive on several connections at once (each burst in one
+    read), reader threads, application threads, writer threads and the I/O loop run freely, with seeded yields at
+    source lines.  Afterwards every request of the peers has exactly one answer bearing its command code,
+    application id and identifiers, on its own connection, and no other answer was transmitted."""
+    import time
+    from vf.simnet.world import World, REALM
+    from vf.simnet import msgs as M
+    from vf.checks.c14 import Yielder
+    run = Run()
+    rng = random.Random(h64("C07", spec["seed"], spec["name"]))
+    for it in range(spec["n"]):
+        kind = rng.choice(["basic", "threading", "threading"])
+        limit = rng.choice([0, 2, 4])
+        nconn = rng.choice([1, 2, 3])
+        same = rng.random() < 0.3
+        names = ["peer1.verif.example" if same else f"peer{i + 1}.verif.example" for i in range(nconn)]
+        peers = [{"name": n} for n in sorted(set(names))]
+        beh = {"k": 0}
+
+        def behaviour(m):
+            return ["answer", "answer", "raise", "answer", "none" if kind == "threading" else "answer"][
+                m.header.hop_by_hop_identifier % 5]
+
+        w = World(dict(peers=peers, apps=[{"tag": "a4", "id": 4, "kind": kind, "max_threads": limit,
+                                           "behaviour": behaviour, "peers": [p["name"] for p in peers]}],
+                       node={"idle_timeout": 10 ** 6, "wakeup_interval": 1}))
+        h = w.h
+        y = None
+        case = {"freerun": True, "kind": kind, "limit": limit, "nconn": nconn, "same_peer": same}
+        try:
+            w.start()
+            sps = []
+            for i, n in enumerate(names):
+                sp = h.inbound(ip=f"10.1.0.{i + 1}", port=50000 + i)
+                h.settle()
+                sp.send(M.cer(n, REALM, auth=[4], hbh=1, e2e=900 + i))
+                h.settle()
+                sp.drain()
+                sp.frames.clear()
+                sps.append(sp)
+            y = Yielder(rng.choice([0.0, 0.02, 0.1]), rng.getrandbits(30))
+            y.start()
+            with h.cv:
+                h.free_running = True
+                h.cv.notify_all()
+            sent = []
+            klass = {}
+            for i, sp in enumerate(sps):
+                blob = b""
+                for k in range(rng.randrange(4, 16)):
+                    hbh, e2e = 2000 * (i + 1) + k, 0x90000 + 2000 * (i + 1) + k
+                    r = rng.random()
+                    if r < 0.25:
+                        blob += M.dwr(names[i], REALM, hbh=hbh, e2e=e2e)
+                        sent.append((i, 280, 0, hbh, e2e))
+                        klass[(i, hbh)] = "base"
+                    elif r < 0.7:
+                        blob += M.ccr(names[i], REALM, REALM, app=4, hbh=hbh, e2e=e2e, session=f"f;{i};{k}")
+                        sent.append((i, 272, 4, hbh, e2e))
+                        klass[(i, hbh)] = "deliver"
+                    elif r < 0.8:
+                        blob += M.ccr(names[i], REALM, REALM, app=4, hbh=hbh, e2e=e2e, omit=("cc_request_type",))
+                        sent.append((i, 272, 4, hbh, e2e))
+                        klass[(i, hbh)] = "reject"
+                    elif r < 0.9:
+                        blob += M.ccr(names[i], REALM, "elsewhere.example", app=4, hbh=hbh, e2e=e2e)
+                        sent.append((i, 272, 4, hbh, e2e))
+                        klass[(i, hbh)] = "reject"
+                    else:
+                        blob += M.generic_request(7777, names[i], REALM, REALM, 4, hbh, e2e)
+                        sent.append((i, 7777, 4, hbh, e2e))
+                        klass[(i, hbh)] = "deliver"
+                sp.send(blob)
+            # requests whose handler returns nothing stay unanswered (threading application): not expected
+            none_ok = {x for x in sent if kind == "threading" and x[1] in (272, 7777) and x[3] % 5 == 4}
+            end = time.time() + 8
+            got = {}
+            while time.time() < end:
+                n = 0
+                for i, sp in enumerate(sps):
+                    sp.drain()
+                    n += len([f for f in sp.frames if not f.is_request])
+                if n >= len(sent) - len(none_ok):
+                    time.sleep(0.05)      # anything beyond the expected count would arrive now
+                    break
+                time.sleep(0.005)
+            with h.cv:
+                h.free_running = False
+            y.stop()
+            y = None
+            for i, sp in enumerate(sps):
+                sp.drain()
+                for f in sp.frames:
+                    if f.is_request:
+                        continue
+                    key = (i, f.h.code, f.h.app, f.h.hbh, f.h.e2e)
+                    got[key] = got.get(key, 0) + 1
+            run.evals += 1
+            run.matched = getattr(run, "matched", 0)
+            run.cov["freerun_cases"] = run.cov.get("freerun_cases", 0) + 1
+            run.cov["freerun_requests"] = run.cov.get("freerun_requests", 0) + len(sent)
+            run.cov["answers_matched"] += sum(1 for x in sent if got.get(x) == 1)
+            run.hashes.add(h64("freerun", spec["name"], it))
+            if h.thread_exc:
+                run.cov["cases_voided_by_thread_death"] = run.cov.get("cases_voided_by_thread_death", 0) + 1
+                continue
+            dup = [k for k, v in got.items() if v > 1]
+            stray = [k for k in got if k not in set(sent)]
+            missing = [x for x in sent if x not in got and x not in none_ok]
+            if dup and spec.get("judge") != "delivery":
+                run.witness("answer.two_answers_for_one_request.free_running", {**case, "ids": dup[:3]}, case)
+            if stray and spec.get("judge") != "delivery":
+                run.witness("answer.no_pending_request_on_this_connection.free_running", {**case, "ids": stray[:3]}, case)
+            if spec.get("judge") == "delivery":
+                # C08's clause under the same executions: handed to the application exactly once, or not at all
+                seen = {}
+                for m in w.apps["a4"].requests:
+                    k2 = (m.header.hop_by_hop_identifier, m.header.end_to_end_identifier)
+                    seen[k2] = seen.get(k2, 0) + 1
+                for (i, code, app, hbh, e2e) in sent:
+                    want = 1 if klass[(i, hbh)] == "deliver" else 0
+                    n = seen.get((hbh, e2e), 0)
+                    if n != want:
+                        run.witness("delivery.not_exactly_once.free_running" if want else
+                                    "delivery.request_the_node_answers_itself_was_delivered.free_running",
+                                    {**case, "delivered": n, "want": want, "code": code, "ids": (hbh, e2e)}, case)
+                run.cov["freerun_deliveries_judged"] = run.cov.get("freerun_deliveries_judged", 0) + len(sent)
+            if missing and len(missing) < len(sent):
+                # (a request that is never answered is outside this property; reported for C14/C08 to judge)
+                run.cov["freerun_requests_unanswered"] = run.cov.get("freerun_requests_unanswered", 0) + len(missing)
+                if len(run.samples) < 3:
+                    run.samples.append({"freerun_unanswered": missing[:4], **case})
+        finally:
+            if y is not None:
+                try:
+                    y.stop()
+                except Exception:
+                    pass
+            w.teardown()
+    return run.result()
+
+
 def run_shard(spec):
+    if spec.get("kind") == "freerun":
+        return run_freerun(spec)
     run = Run()
     rng = random.Random(h64("C07", spec["seed"], spec["name"]))
     if spec["kind"] == "exhaustive" and spec["part"] == 0:
@@ -418,6 +565,8 @@ def run_shard(spec):
 
 
 def replay(obj):
+    if obj.get("freerun"):
+        return run_freerun({"name": "replay", "seed": 0, "n": 30})
     run = Run()
     run.one(obj["start"], obj["behaviour"], obj["script"], obj.get("nconn", 1))
     return run.result()
